@@ -118,8 +118,8 @@ def expand(acc, batch, last=False, meta=None):
             acc.out.append((e2.world_key(w2), w2, trace + [list(a)]))
 
 
-QUICK = [("diamond", "slurm", 7), ("fork", "sge", 7), ("diamond", "lsf", 6), ("chain", "slurm", 7), ("diamond", "sge", 6)]
-THOROUGH = [(wf, be, 6 if wf != "diamond" else 5) for wf in ("fork", "chain", "diamond") for be in ("slurm", "sge", "lsf")]
+QUICK = [("shortcut", "slurm", 6), ("shortcut", "lsf", 5), ("diamond", "slurm", 7), ("fork", "sge", 7), ("diamond", "lsf", 6), ("chain", "slurm", 7), ("diamond", "sge", 6)]
+THOROUGH = [(wf, be, 6 if wf != "diamond" else 5) for wf in ("fork", "chain", "diamond", "shortcut") for be in ("slurm", "sge", "lsf")]
 
 
 def run(ctx):
